@@ -105,7 +105,7 @@ def run(chk, replay=None):
                 bad = "line numbers not consecutive: %s" % [q[0] for q in quoted]
             if n < 1 or n > len(flines):
                 bad = "line %d does not exist (file has %d lines)" % (n, len(flines))
-            elif flines[n - 1] != txt and flines[n - 1] != txt.rstrip("\r"):
+            elif flines[n - 1] != txt:
                 bad = "line %d quoted as %r but is %r" % (n, txt, flines[n - 1])
         last = mlines[-1]
         m3 = re.match(r"^ *\|( *)(\^*) (.*)$", last, re.S)
